@@ -1,4 +1,4 @@
-import NirVerif.Lemmas.Restore
+import NirVerif.Lemmas.RestoreKeyed
 import NirVerif.Properties.C09
 
 /-! # C08 — type inference reconstructs exactly the erased shape annotations
@@ -14,18 +14,22 @@ open NirVerif NirVerif.Py NirVerif.Model NirVerif.Lemmas
 def HasTypes (n : Node) (t : List Int × List Int) : Prop :=
   Spec.portShape n.inputType = some t.1 ∧ Spec.portShape n.outputType = some t.2
 
-/-- `τ` is locally consistent with the partly erased graph `g`. -/
-structure LocalTyping (g : Node) (τ : String → List Int × List Int) : Prop where
+/-- `τ` is locally consistent with the partly erased graph `g`, for a node-typing predicate
+`H` (`HasTypes`, or the key-aware `HasTypesK`). -/
+structure LocalTypingG (H : Node → List Int × List Int → Prop) (g : Node)
+    (τ : String → List Int × List Int) : Prop where
   /-- Input nodes carry their (never erased) shapes -/
-  sources : ∀ k n, lookup k g.children = some n → n.isKind "Input" = true → HasTypes n (τ k)
+  sources : ∀ k n, lookup k g.children = some n → n.isKind "Input" = true → H n (τ k)
   /-- the annotated graph is type-consistent along every edge -/
   consistent : ∀ e ∈ g.edges, (τ e.1).2 = (τ e.2).1
   /-- one loop body, run on a predecessor that already carries `τ` and on a successor that is
   either still as erased or already carries `τ`, succeeds and gives the successor `τ` -/
-  step : ∀ pre post preN postN post0, (pre, post) ∈ g.edges → HasTypes preN (τ pre) →
+  step : ∀ pre post preN postN post0, (pre, post) ∈ g.edges → H preN (τ pre) →
     lookup post g.children = some post0 → postN.kind = post0.kind →
-    (postN = post0 ∨ HasTypes postN (τ post)) →
-    (stepNode preN postN).2 = none ∧ HasTypes (stepNode preN postN).1 (τ post)
+    (postN = post0 ∨ H postN (τ post)) →
+    (stepNode preN postN).2 = none ∧ H (stepNode preN postN).1 (τ post)
+
+abbrev LocalTyping := LocalTypingG HasTypes
 
 theorem singlePort_of_hasTypes (n : Node) (t : List Int × List Int) (h : HasTypes n t)
     (hk : n.isKind "NIRGraph" = false) : SinglePort n := by
@@ -48,19 +52,20 @@ theorem singlePort_of_hasTypes (n : Node) (t : List Int × List Int) (h : HasTyp
 reachable from one, and any typing `τ` locally consistent with it: `infer_types` succeeds,
 gives *every* node exactly the types `τ` assigns (none undefined, Output nodes included), and
 the resulting graph passes the type check. -/
-theorem restore (g : Node) (τ : String → List Int × List Int)
+theorem restoreG (H : Node → List Int × List Int → Prop) (hH : ∀ n t, H n t → HasTypes n t)
+    (g : Node) (τ : String → List Int × List Int)
     (hkeys : (g.children.map Prod.fst).Nodup) (hflat : FlatEdges g)
     (hleaf : ∀ k n, lookup k g.children = some n → n.isKind "NIRGraph" = false)
     (hin : (graphInputs g).isEmpty = false)
     (hall : ∀ k n, lookup k g.children = some n →
       n.isKind "Input" = true ∨ Reach g.edges ((graphInputs g).map Prod.fst) k)
-    (ht : LocalTyping g τ) :
+    (ht : LocalTypingG H g τ) :
     (inferTypes g).2 = none ∧
     (∀ k n0, lookup k g.children = some n0 →
-      ∃ n, lookup k (inferTypes g).1.children = some n ∧ HasTypes n (τ k)) ∧
+      ∃ n, lookup k (inferTypes g).1.children = some n ∧ H n (τ k)) ∧
     checkTypes (inferTypes g).1 = .ok true := by
   let Good : String → Node → Prop := fun k n =>
-    HasTypes n (τ k) ∧ ∃ n0, lookup k g.children = some n0 ∧ n.kind = n0.kind
+    H n (τ k) ∧ ∃ n0, lookup k g.children = some n0 ∧ n.kind = n0.kind
   have hinputs : ∀ k ∈ (graphInputs g).map Prod.fst, ∀ n, lookup k g.children = some n → n.isKind "Input" = true := by
     intro k hk n hn
     simp only [graphInputs, List.mem_map, List.mem_filter] at hk
@@ -76,7 +81,7 @@ theorem restore (g : Node) (τ : String → List Int × List Int)
     obtain ⟨_, post0, hb0, _, _⟩ := hflat (pre, post) hmem
     obtain ⟨pa, pb, hpa, hpb, _, _⟩ := hflat (pre, post) hmem
     simp only at hpb
-    have hcase : postN.kind = pb.kind ∧ (postN = pb ∨ HasTypes postN (τ post)) := by
+    have hcase : postN.kind = pb.kind ∧ (postN = pb ∨ H postN (τ post)) := by
       rcases hpost with h | h
       · rw [hpb] at h; cases h; exact ⟨rfl, Or.inl rfl⟩
       · obtain ⟨hty, n0, hn0, hk0⟩ := h
@@ -121,15 +126,33 @@ theorem restore (g : Node) (τ : String → List Int × List Int)
       obtain ⟨a, b, ha, hb, _, _⟩ := hflat e he
       obtain ⟨na, hna, hga⟩ := hnodes e.1 a ha
       obtain ⟨nb, hnb, hgb⟩ := hnodes e.2 b hb
-      refine ⟨na, nb, (τ e.1).2, by rw [hres.1]; exact hna, by rw [hres.1]; exact hnb, hga.1.2, ?_⟩
-      rw [ht.consistent e he]; exact hgb.1.1
+      refine ⟨na, nb, (τ e.1).2, by rw [hres.1]; exact hna, by rw [hres.1]; exact hnb, (hH _ _ hga.1).2, ?_⟩
+      rw [ht.consistent e he]; exact (hH _ _ hgb.1).1
     · intro e he
       rw [hres.2.1] at he
       obtain ⟨a, b, ha, hb, _, _⟩ := hflat e he
       obtain ⟨na, hna, hga⟩ := hnodes e.1 a ha
       obtain ⟨nb, hnb, hgb⟩ := hnodes e.2 b hb
       exact ⟨na, nb, by rw [hres.1]; exact hna, by rw [hres.1]; exact hnb,
-        singlePort_of_hasTypes _ _ hga.1 (hkindGood _ _ hga), singlePort_of_hasTypes _ _ hgb.1 (hkindGood _ _ hgb)⟩
+        singlePort_of_hasTypes _ _ (hH _ _ hga.1) (hkindGood _ _ hga),
+        singlePort_of_hasTypes _ _ (hH _ _ hgb.1) (hkindGood _ _ hgb)⟩
+
+/-- **Restoration.**  For a flat graph with unique names in which every node is an Input or
+reachable from one, and any typing `τ` locally consistent with it: `infer_types` succeeds,
+gives *every* node exactly the types `τ` assigns (none undefined, Output nodes included), and
+the resulting graph passes the type check. -/
+theorem restore (g : Node) (τ : String → List Int × List Int)
+    (hkeys : (g.children.map Prod.fst).Nodup) (hflat : FlatEdges g)
+    (hleaf : ∀ k n, lookup k g.children = some n → n.isKind "NIRGraph" = false)
+    (hin : (graphInputs g).isEmpty = false)
+    (hall : ∀ k n, lookup k g.children = some n →
+      n.isKind "Input" = true ∨ Reach g.edges ((graphInputs g).map Prod.fst) k)
+    (ht : LocalTyping g τ) :
+    (inferTypes g).2 = none ∧
+    (∀ k n0, lookup k g.children = some n0 →
+      ∃ n, lookup k (inferTypes g).1.children = some n ∧ HasTypes n (τ k)) ∧
+    checkTypes (inferTypes g).1 = .ok true :=
+  restoreG HasTypes (fun _ _ h => h) g τ hkeys hflat hleaf hin hall ht
 
 
 /-! ## discharging `LocalTyping` from per-node conditions -/
@@ -197,6 +220,92 @@ theorem localTyping_of_nodes (g : Node) (τ : String → List Int × List Int)
       exact ⟨h1, h2, by rw [h3]; exact hout⟩
 
 
+/-! ## key-aware discharge: erased **Flatten** nodes as well -/
+
+theorem hasTypes_of_K (n : Node) (t : List Int × List Int) (h : HasTypesK n t) : HasTypes n t := by
+  obtain ⟨⟨vi, hi, hvi⟩, ⟨vo, ho, hvo⟩⟩ := h
+  exact ⟨by rw [hi]; simpa [Spec.portShape, typeDict] using hvi, by rw [ho]; simpa [Spec.portShape, typeDict] using hvo⟩
+
+/-- What is asked of each node of the partly erased graph, with the standard port names: an
+`input` port (possibly undefined or wrong), and either it is an Input carrying `t`; or an
+Output (own shape erased or wrong) with `t.1 = t.2`; or a **Flatten whose output type was
+erased**, with `t.2` the flattening of a non-scalar `t.1` that preserves the element count;
+or any other primitive whose output type is the annotated `t.2`. -/
+def NodeOKK (n : Node) (t : List Int × List Int) : Prop :=
+  (∃ vi, n.inputType = typeDict "input" vi ∧ PortVal vi) ∧
+  ((n.kind = "Input" ∧ HasTypesK n t) ∨ (n.kind = "Output" ∧ t.1 = t.2) ∨
+   (n.kind = "Flatten" ∧ n.outputType = typeDict "output" .none ∧
+      ∃ sd ed, n.field? "start_dim" = some (.int sd) ∧ n.field? "end_dim" = some (.int ed) ∧
+        t.1 ≠ [] ∧ t.2 = calcFlattenOutput t.1 sd ed ∧ Py.prod t.1 = Py.prod t.2 ∧ FitsI64 t.2) ∨
+   (n.kind ≠ "Output" ∧ ∃ w, n.outputType = typeDict "output" w ∧ Spec.shapeOfVal w = some t.2))
+
+/-- Erasing / corrupting any subset of Output shapes, input-side annotations **and Flatten
+output types** of a type-consistent graph leaves `τ` locally consistent. -/
+theorem localTypingK_of_nodes (g : Node) (τ : String → List Int × List Int)
+    (hnodes : ∀ k n, lookup k g.children = some n → NodeOKK n (τ k))
+    (hsrc : ∀ k n, lookup k g.children = some n → n.isKind "Input" = true → HasTypesK n (τ k))
+    (hcons : ∀ e ∈ g.edges, (τ e.1).2 = (τ e.2).1) : LocalTypingG HasTypesK g τ where
+  sources := hsrc
+  consistent := hcons
+  step := by
+    intro pre post preN postN post0 hmem hpre hpost0 hkind hcase
+    obtain ⟨vo, hpo, hso⟩ := hpre.2
+    have hc := hcons (pre, post) hmem
+    simp only at hc
+    rw [hc] at hso
+    obtain ⟨⟨vi0, hpi0, hvi0⟩, halt⟩ := hnodes post post0 hpost0
+    have hport : ∃ vi, postN.inputType = typeDict "input" vi ∧ PortVal vi := by
+      rcases hcase with rfl | hty
+      · exact ⟨vi0, hpi0, hvi0⟩
+      · obtain ⟨v, hd, hv⟩ := hty.1
+        exact ⟨v, hd, Or.inr (by simp [hv])⟩
+    obtain ⟨vi, hpi, hvi⟩ := hport
+    have hτ : τ post = ((τ post).1, (τ post).2) := rfl
+    rcases halt with ⟨hk, hty0⟩ | ⟨hk, heq⟩ | ⟨hk, hout0, sd, ed, hsd, hed, hne, ht2, hcount, hfit⟩ | ⟨hk, w0, hout0, hw0⟩
+    · have hout : ∃ w, postN.outputType = typeDict "output" w ∧ Spec.shapeOfVal w = some (τ post).2 := by
+        rcases hcase with rfl | hty
+        · exact hty0.2
+        · exact hty.2
+      obtain ⟨w, hout, hw⟩ := hout
+      have hne : postN.kind ≠ "Output" := by rw [hkind, hk]; decide
+      rw [hτ]
+      exact stepNode_annotatedK preN postN vo vi w _ _ hne hout hw hpo hso hpi hvi
+    · have := stepNode_outputK preN postN vo vi _ (by rw [hkind, hk]) hpo hso hpi hvi
+      rw [hτ, ← heq]; exact this
+    · rcases hcase with rfl | hty
+      · have := stepNode_flatten preN postN vo vi _ sd ed hk hout0 hsd hed hpo hso hne hpi hvi
+          (by rw [← ht2]; exact hcount) (by rw [← ht2]; exact hfit)
+        rw [hτ, ht2]; exact this
+      · obtain ⟨w, hout, hw⟩ := hty.2
+        have hne' : postN.kind ≠ "Output" := by rw [hkind, hk]; decide
+        rw [hτ]
+        exact stepNode_annotatedK preN postN vo vi w _ _ hne' hout hw hpo hso hpi hvi
+    · have hout : ∃ w, postN.outputType = typeDict "output" w ∧ Spec.shapeOfVal w = some (τ post).2 := by
+        rcases hcase with rfl | hty
+        · exact ⟨w0, hout0, hw0⟩
+        · exact hty.2
+      obtain ⟨w, hout, hw⟩ := hout
+      have hne : postN.kind ≠ "Output" := by rw [hkind]; exact hk
+      rw [hτ]
+      exact stepNode_annotatedK preN postN vo vi w _ _ hne hout hw hpo hso hpi hvi
+
+/-- **Restoration, including Flatten.**  `restoreG` at the key-aware typing. -/
+theorem restore_keyed (g : Node) (τ : String → List Int × List Int)
+    (hkeys : (g.children.map Prod.fst).Nodup) (hflat : FlatEdges g)
+    (hleaf : ∀ k n, lookup k g.children = some n → n.isKind "NIRGraph" = false)
+    (hin : (graphInputs g).isEmpty = false)
+    (hall : ∀ k n, lookup k g.children = some n →
+      n.isKind "Input" = true ∨ Reach g.edges ((graphInputs g).map Prod.fst) k)
+    (hnodes : ∀ k n, lookup k g.children = some n → NodeOKK n (τ k))
+    (hsrc : ∀ k n, lookup k g.children = some n → n.isKind "Input" = true → HasTypesK n (τ k))
+    (hcons : ∀ e ∈ g.edges, (τ e.1).2 = (τ e.2).1) :
+    (inferTypes g).2 = none ∧
+    (∀ k n0, lookup k g.children = some n0 →
+      ∃ n, lookup k (inferTypes g).1.children = some n ∧ HasTypesK n (τ k)) ∧
+    checkTypes (inferTypes g).1 = .ok true :=
+  restoreG HasTypesK hasTypes_of_K g τ hkeys hflat hleaf hin hall (localTypingK_of_nodes g τ hnodes hsrc hcons)
+
+
 /-! ## non-vacuity: a concrete erased graph meets every hypothesis of `restore` -/
 
 def exIn : Node := Node.mk "Input" [] (typeDict "input" (Val.ofInts [2])) (typeDict "output" (Val.ofInts [2])) (.dict []) [] []
@@ -252,5 +361,66 @@ example : (inferTypes exGraph).2 = none ∧ checkTypes (inferTypes exGraph).1 = 
     (fun k n h => by rcases ex_lookup k n h with ⟨_, rfl⟩ | ⟨_, rfl⟩ | ⟨_, rfl⟩ | ⟨_, rfl⟩ <;> rfl)
     (by decide) hreach hlt
   exact ⟨this.1, this.2.2⟩
+
+/-! ### non-vacuity of `restore_keyed`: Input[2,3] → Flatten (output erased) → Output (erased) -/
+
+def fxIn : Node := Node.mk "Input" [] (typeDict "input" (Val.ofInts [2, 3])) (typeDict "output" (Val.ofInts [2, 3])) (.dict []) [] []
+def fxFlat : Node := Node.mk "Flatten" [("start_dim", .int 0), ("end_dim", .int (-1))]
+  (typeDict "input" .none) (typeDict "output" .none) (.dict []) [] []
+def fxGraph : Node := mkGraph [("in", fxIn), ("f", fxFlat), ("o", exOutErased)] [("f", "o"), ("in", "f")]
+def fxTau : String → List Int × List Int := fun k =>
+  if k = "in" then ([2, 3], [2, 3]) else if k = "f" then ([2, 3], [6]) else ([6], [6])
+
+theorem fx_shape : Spec.shapeOfVal (Val.ofInts [2, 3]) = some [2, 3] := by decide +kernel
+
+theorem fx_lookup (k : String) (n : Node) (h : lookup k fxGraph.children = some n) :
+    (k = "in" ∧ n = fxIn) ∨ (k = "f" ∧ n = fxFlat) ∨ (k = "o" ∧ n = exOutErased) := by
+  simp only [fxGraph, mkGraph, Node.children, lookup] at h
+  repeat' split at h
+  all_goals (first | cases h | skip)
+  all_goals (rename_i hk; simp at hk)
+  all_goals simp_all
+
+example : (inferTypes fxGraph).2 = none ∧ checkTypes (inferTypes fxGraph).1 = .ok true ∧
+    ∃ n, lookup "f" (inferTypes fxGraph).1.children = some n ∧ Spec.portShape n.outputType = some [6] := by
+  have hInK : HasTypesK fxIn ([2, 3], [2, 3]) := ⟨⟨_, rfl, fx_shape⟩, ⟨_, rfl, fx_shape⟩⟩
+  have hflat : FlatEdges fxGraph := by
+    intro e he
+    simp only [fxGraph, mkGraph, Node.edges, List.mem_cons, List.mem_nil_iff, or_false] at he
+    rcases he with rfl | rfl <;> exact ⟨_, _, rfl, rfl, rfl, rfl⟩
+  have hreach : ∀ k n, lookup k fxGraph.children = some n →
+      n.isKind "Input" = true ∨ Reach fxGraph.edges ((graphInputs fxGraph).map Prod.fst) k := by
+    intro k n h
+    have hin : "in" ∈ (graphInputs fxGraph).map Prod.fst := by decide
+    have hf : Reach fxGraph.edges ((graphInputs fxGraph).map Prod.fst) "f" := Reach.start (a := "in") (by decide) hin
+    rcases fx_lookup k n h with ⟨rfl, rfl⟩ | ⟨rfl, rfl⟩ | ⟨rfl, rfl⟩
+    · left; rfl
+    · right; exact hf
+    · right; exact Reach.step (a := "f") (by decide) hf
+  have := restore_keyed fxGraph fxTau (by decide) hflat
+    (fun k n h => by rcases fx_lookup k n h with ⟨_, rfl⟩ | ⟨_, rfl⟩ | ⟨_, rfl⟩ <;> rfl)
+    (by decide) hreach
+    (by
+      intro k n h
+      rcases fx_lookup k n h with ⟨rfl, rfl⟩ | ⟨rfl, rfl⟩ | ⟨rfl, rfl⟩
+      · exact ⟨⟨_, rfl, Or.inr (by rw [fx_shape]; rfl)⟩, Or.inl ⟨rfl, hInK⟩⟩
+      · refine ⟨⟨_, rfl, Or.inl rfl⟩, Or.inr (Or.inr (Or.inl ⟨rfl, rfl, 0, -1, rfl, rfl, ?_⟩))⟩
+        refine ⟨by decide, by decide +kernel, by decide +kernel, ?_⟩
+        intro x hx
+        have : x = 6 := by simpa [fxTau] using hx
+        subst this; decide
+      · exact ⟨⟨_, rfl, Or.inl rfl⟩, Or.inr (Or.inl ⟨rfl, rfl⟩)⟩)
+    (by
+      intro k n h hk
+      rcases fx_lookup k n h with ⟨rfl, rfl⟩ | ⟨rfl, rfl⟩ | ⟨rfl, rfl⟩
+      · exact hInK
+      all_goals simp [Node.isKind, Node.kind, fxFlat, exOutErased] at hk)
+    (by
+      intro e he
+      simp only [fxGraph, mkGraph, Node.edges, List.mem_cons, List.mem_nil_iff, or_false] at he
+      rcases he with rfl | rfl <;> decide)
+  refine ⟨this.1, this.2.2, ?_⟩
+  obtain ⟨n, hn, hK⟩ := this.2.1 "f" fxFlat rfl
+  exact ⟨n, hn, (hasTypes_of_K _ _ hK).2⟩
 
 end NirVerif.C08
